@@ -126,13 +126,22 @@ def expandAttr (k : Nat) (a : Attr) : Attr :=
 def hardAttr (n : Nat) : Attr :=
   { name := hardName, dflt := 0, st := .sparse ((List.range n).map (fun i => (i, 1))) }
 
+/-- `is_valid(a, b)` with `N = len(self.vertices)` -/
+def validE (n : Nat) (e : Int × Int) : Bool :=
+  e.1 != e.2 && decide (0 ≤ e.1) && decide (e.1 < (n : Int)) && decide (0 ≤ e.2) && decide (e.2 < (n : Int))
+
+/-- the sides of the faces that are edges: sides of degenerate faces (repeated vertex, non-existent vertex) are skipped
+by the completion (repaired code) -/
+def validSides (n : Nat) (faces : List (List Nat)) : List (Int × Int) :=
+  (faces.flatMap faceSides).filter (validE n)
+
 def completeEdges (r : Raw) : Raw :=
   if r.faces.isEmpty then r
   else
     { r with
-      edges := completeBy keyE r.edges (r.faces.flatMap faceSides),
+      edges := completeBy keyE r.edges (validSides r.verts.length r.faces),
       eattrs := (if hasAttr r.eattrs hardName then r.eattrs else r.eattrs ++ [hardAttr r.edges.length]).map
-        (expandAttr ((completeBy keyE r.edges (r.faces.flatMap faceSides)).length - r.edges.length)) }
+        (expandAttr ((completeBy keyE r.edges (validSides r.verts.length r.faces)).length - r.edges.length)) }
 
 /-! ### stage: vertices -/
 
@@ -142,8 +151,6 @@ def prepareVertices (r : Raw) : Raw := { r with verts := r.verts.map padVertex }
 
 /-! ### stage: edge validity filter with attribute re-indexing -/
 
-def validE (n : Nat) (e : Int × Int) : Bool :=
-  e.1 != e.2 && decide (0 ≤ e.1) && decide (e.1 < (n : Int)) && decide (0 ≤ e.2) && decide (e.2 < (n : Int))
 
 /-- indices (counted from `i`) of the valid edges, in order -/
 def survIdx (n : Nat) : List (Int × Int) → Nat → List Nat
